@@ -355,10 +355,9 @@ fn run_fit<T: Sc>(idx: usize, sc: &Scenario) -> ScenOut {
         threads: 2,
         post_jac: idx % 2 == 1,
         refit: idx % 4 == 3,
-        eps: None,
+        eps: eps.map(T::of64),
         weights_first: idx % 2 == 0,
     };
-    let _ = eps;
     let mut steps = Vec::new();
     let mut out = ScenOut {
         idx,
@@ -473,7 +472,8 @@ fn gen_fit_scenarios(count: usize, rng: &mut StdRng) -> Vec<Scenario> {
             special_y: if i % 11 == 6 { pick(i) } else { None },
             special_w: if i % 13 == 7 { pick(i + 1) } else { None },
             special_x: if i % 17 == 8 { pick(i + 2) } else { None },
-            eps: None,
+            // a caller's singular value threshold of exactly zero ("truncate nothing"), tiny, or negative zero
+            eps: match i % 9 { 4 => Some(0.0), 7 => Some(-0.0), 2 if i % 2 == 0 => Some(1e-300), _ => None },
         });
     }
     // sample counts far beyond everything else (anything quadratic in N - an N x N intermediate - cannot be
